@@ -92,6 +92,29 @@ theorem C12_packright_keeps_order (ns : Rat) (hns : 0 < ns) (g : G) (hwf : Layer
   · rw [hcoord.1, hcoord.2]; simp [packRightRaw_eq]
   · rw [hcoord.2]; exact hw
 
+/-- separated consecutive pairs, as a list predicate -/
+theorem separated_of_adjPairs (ns : Rat) (f : Nat → Rat) (w : Nat → Rat) : ∀ (l : List Nat),
+    (∀ p ∈ adjPairs l, f p.1 + w p.1 + ns ≤ f p.2) → Phase4Simple.Separated ns (l.map f) (l.map w)
+  | [], _ => trivial
+  | [_], _ => trivial
+  | a :: b :: l, h => by
+    simp only [List.map_cons, Phase4Simple.Separated]
+    refine ⟨h (a, b) (by simp [adjPairs]), ?_⟩
+    have := separated_of_adjPairs ns f w (b :: l) (fun p hp => h p (by simp [adjPairs, hp]))
+    simpa using this
+
+/-- SinkColoring (the default positioner) keeps the order of every layer list, under the block-width contract of C04 -/
+theorem C12_sinkcoloring_keeps_order (ns : Rat) (hns : 0 < ns) (g : G) (hwf : LayersWF g) (bw : Array Rat) (roots : Array Nat)
+    (hb : scBlocks g = .ok (bw, roots)) (hwide : BlockWide g bw roots) (g' : G) (d : Nat)
+    (h : execSinkColoring ns g = .ok (g', d)) (l : Layer) (hl : l ∈ g.layers.toList)
+    (hw : ∀ n ∈ l.nodes, 0 ≤ (g'.node n).w) :
+    StrictlyIncreasing (centres (l.nodes.map fun n => (g'.node n).x) (l.nodes.map fun n => (g'.node n).w)) := by
+  have hsep := C04_sinkcoloring_separated ns g hwf bw roots hb hwide g' d h l hl
+  apply C12_centres_increasing ns hns _ _ (by simp) _ (separated_of_adjPairs ns _ _ l.nodes hsep)
+  intro w hwmem
+  obtain ⟨n, hn, rfl⟩ := List.mem_map.1 hwmem
+  exact hw n hn
+
 example : countCrossingsModel (ceilLog2 (min 3 3)) 3 3 [(0, 2), (1, 0), (2, 1)] = 2 := by decide +kernel
 example : crossings [(0, 2), (1, 0), (2, 1)] = 2 := by decide
 
